@@ -7,7 +7,7 @@ spec/reset_classes.toml in both directions, and the value left in every
 must-reset field is compared with the value RawMachine::new() gives it."""
 from .. import absint, step, shapes, spec, mirutil
 from .. import domain as D
-from ..domain import Agg, En, Ref, TOP, BOT, Arr, ArrS
+from ..domain import Agg, En, Ref, TOP, BOT, Arr, ArrS, Opaque
 from ..facts import AnchorMissing
 
 LEVEL = "other"
@@ -141,21 +141,38 @@ def run(ctx):
     notset = p.variant_index(step.STACKSIZE, "NotSet")
     chk.ob("load/stacksize-never-notset", isinstance(ss, En) and notset not in ss.vs,
            "load never stores Stacksize::NotSet into the machine", b.loc(), "stacksize after load: %r" % (ss,))
-    # order of the load phases (A3): master_reset dominates reset_ram dominates the image copy
-    calls = [(bb, mirutil.callee_name(t)) for bb, t in mirutil.calls_in(b)]
-    dom = mirutil.dominators(b)
-
-    def first(name_part):
-        for bb, c in calls:
-            if c and name_part in c:
-                return bb
-        return None
-    bb_reset = first("Machine::master_reset")
-    bb_ram = first("Bus::reset_ram")
-    bb_copy = first("Iterator::for_each")
-    ok = None not in (bb_reset, bb_ram, bb_copy) and bb_reset in dom[bb_ram] and bb_ram in dom[bb_copy]
-    chk.ob("load/order", ok, "in Machine::load the master reset dominates the RAM clear, which dominates the image copy",
-           b.loc(), "blocks: reset %s, reset_ram %s, copy %s" % (bb_reset, bb_ram, bb_copy))
+    # the loaded RAM is the image followed by zeros, whatever the RAM held before (decided on the result of
+    # Machine::load itself, not on how the copy is written): three image lines with 2+0+1 bytes over a RAM of
+    # 240 distinct opaque cells
+    names_bc = p.field_names("L::compiler::ByteCode")
+    line_any = TOP
+    img = [Opaque("IMG0"), Opaque("IMG1"), Opaque("IMG2")]
+    lines_v = Arr([Agg((line_any, Arr(img[:2]))), Agg((line_any, Arr(()))), Agg((line_any, Arr(img[2:])))])
+    ss_t = p.need_type(step.STACKSIZE)
+    bc = Agg([{"lines": lines_v, "stacksize": En({p.variant_index(step.STACKSIZE, "_16"): ()}),
+               "programsize": En({[v["n"] for v in p.need_type("L::parser::ast::Programsize")["variants"]].index("Auto"): ()})}[f]
+              for f in names_bc])
+    I3 = absint.Interp(p)
+    I3.unroll = 8
+    st3 = absint.State()
+    ov3 = step.machine_overrides(p, None, None, None, stacksize_notset=False)
+    ov3["bus.ram.0"] = Arr([Opaque("old.%d" % i) for i in range(240)])
+    ma3 = step.new_machine(p, I3, st3, ov3, MACHINE)
+    I3.events.clear()
+    r3 = I3.run_body(p.need_body(MACHINE + "::load"), [Ref(ma3, (), True), bc], st3, 0)
+    ram3 = step.field(p, I3, st3, ma3, "raw.bus.ram.0", MACHINE)
+    bad3 = [e for e in I3.events if e.kind in step.BAD_EVENTS and not e.in_log]
+    ok3 = (isinstance(ram3, Arr) and len(ram3.e) == 240 and list(ram3.e[:3]) == img and all(x == 0 for x in ram3.e[3:])
+           and not bad3 and r3 is not BOT)
+    chk.ob("load/ram-is-image-then-zeros", ok3,
+           "after Machine::load the RAM holds the image bytes from address 0 in order, followed by zeros, whatever it held before",
+           b.loc(), "first cells after load: %s; non-zero cells behind the image: %s; unanalysable: %s"
+           % (list(ram3.e[:4]) if isinstance(ram3, Arr) else ram3,
+              [i for i, x in enumerate(ram3.e[3:], 3) if x != 0][:4] if isinstance(ram3, Arr) else "?", bad3[:2]),
+           "A4 on Machine::load with a three-line image over 240 distinct opaque RAM cells")
+    ps3 = step.field(p, I3, st3, ma3, "raw.programsize", MACHINE)
+    chk.ob("load/auto-programsize", isinstance(ps3, En) and list(ps3.vs.values()) == [(3,)],
+           "*PROGRAMSIZE AUTO becomes the number of image bytes", b.loc(), "programsize after load: %r" % (ps3,))
     # RAM zero fill: after master_reset + reset_ram (before the copy) the RAM is all zero
     st2 = absint.State()
     ov = step.machine_overrides(p, None, None, None, stacksize_notset=True)
@@ -163,48 +180,9 @@ def run(ctx):
     I.run_body(p.need_body("L::machine::bus::Bus::reset_ram"),
                [Ref(ma2, (p.field_index(RM, "bus"),), True)], st2, 0)
     ram = step.field(p, I, st2, ma2, "bus.ram.0")
-    chk.ob("load/ram-zero-fill", isinstance(ram, ArrS) and ram.elem == 0 and ram.n == 240,
+    chk.ob("load/ram-zero-fill", (isinstance(ram, ArrS) and ram.elem == 0 and ram.n == 240)
+           or (isinstance(ram, Arr) and len(ram.e) == 240 and all(x == 0 for x in ram.e)),
            "Bus::reset_ram leaves 240 zero bytes", p.need_body("L::machine::bus::Bus::reset_ram").loc(), repr(ram))
-    # image copy: closure writes memory[index of enumerate] = the iterated byte
-    clos = [k for k in p.bodies if k.startswith(MACHINE + "::load::{closure#0}")]
-    ok = False
-    det = ""
-    if clos:
-        cb = p.bodies[clos[0]]
-        # find the indexed assignment
-        for blk in cb.blocks:
-            for s in blk["s"]:
-                if s["k"] == "assign" and s["p"]["p"] and isinstance(s["p"]["p"][-1], dict) and "i" in s["p"]["p"][-1]:
-                    idx_local = s["p"]["p"][-1]["i"]
-                    src = s["r"]["o"] if s["r"]["k"] == "use" else None
-                    # index local must be (a copy of) field 0 of the closure argument, value the deref of field 1
-                    def origin(l, seen=()):
-                        for (dbb, i, item) in mirutil.local_def_sites(cb, l):
-                            if item.get("k") == "assign" and item["r"]["k"] == "use":
-                                pl = mirutil.place_of(item["r"]["o"])
-                                if pl is not None:
-                                    if pl["p"]:
-                                        return pl
-                                    if pl["l"] not in seen:
-                                        return origin(pl["l"], seen + (l,))
-                        return {"l": l, "p": []}
-                    io = origin(idx_local)
-                    vo = None
-                    if src is not None:
-                        pl = mirutil.place_of(src)
-                        if pl is not None:
-                            vo = pl if pl["p"] else origin(pl["l"])
-                    det = "index from %s, value from %s" % (io, vo)
-                    idx_ok = io["l"] == 2 and io["p"] and io["p"][0].get("f") == 0
-                    val_ok = False
-                    if vo is not None:
-                        if vo["p"] and vo["p"][0] == "*":
-                            base = origin(vo["l"])
-                            val_ok = base["l"] == 2 and base["p"] and base["p"][0].get("f") == 1
-                    ok = bool(idx_ok and val_ok)
-    chk.ob("load/copy-shape", ok,
-           "the image copy stores the iterated byte at the index given by enumerate (address = position in the image)",
-           b.loc(), det)
     surv = [lf for lf in leaves if cls(lf) in ("never", "unspecified") and lf not in ("bus.ram.0",)]
     chk.note("fields that survive a load (history-dependent by design): %s; additionally stacksize/programsize "
              "survive when the program says NOSET" % surv)
